@@ -944,6 +944,62 @@ impl Prop for C07 {
             cx.sample_with(|| format!("decode {:02x?} under {}", code, cfg.describe()));
             return check_decode(&code, &cfg, cx);
         }
+        if mode == 1 {
+            // typed arithmetic, directed: two (or three) values of ONE type taken from registers - integers of every
+            // width and signedness, floats incl. NaN, infinities, signed zeros - combined by every unary and binary
+            // operation; now and then a value of another type (TypeMismatch) or a generic shift count
+            cx.label("typed-arithmetic-mode");
+            let a = cfg.address_size;
+            let ty = ALL_TYS[ch.below(ALL_TYS.len())];
+            let same = |ch: &mut Choices| -> MV {
+                for _ in 0..64 {
+                    let v = gen_value(ch, a);
+                    if v.ty == ty {
+                        return v;
+                    }
+                }
+                match ty {
+                    Ty::F32 => MV { ty, bits: ch.pick(&[f32::NAN.to_bits(), 0x8000_0000, 0x3f80_0000, f32::INFINITY.to_bits(), f32::NEG_INFINITY.to_bits(), 0x0000_0001]) as u64 },
+                    Ty::F64 => MV { ty, bits: ch.pick(&[f64::NAN.to_bits(), 0x8000_0000_0000_0000, 0x3ff0_0000_0000_0000, f64::INFINITY.to_bits(), f64::NEG_INFINITY.to_bits(), 1]) },
+                    Ty::Gen => MV::gen(ch.biased(8 * a as u32), a),
+                    t => MV::int(t, ch.biased(t.bits(a)), a),
+                }
+            };
+            let mut values: Vec<MV> = (0..4).map(|_| same(ch)).collect();
+            if ch.chance(24) {
+                let k = ch.below(4);
+                values[k] = gen_value(ch, a);
+            }
+            const BIN: [MOp; 19] = [MOp::Plus, MOp::Minus, MOp::Mul, MOp::Div, MOp::Mod, MOp::And, MOp::Or, MOp::Xor, MOp::Shl, MOp::Shr, MOp::Shra, MOp::Eq, MOp::Ne, MOp::Ge, MOp::Gt, MOp::Le, MOp::Lt, MOp::Ge, MOp::Le];
+            const UN: [MOp; 3] = [MOp::Abs, MOp::Neg, MOp::Not];
+            let mut prog: Vec<MOp> = vec![MOp::RegvalType(1, 0x20, false), MOp::RegvalType(2, 0x20, false)];
+            if ch.chance(60) {
+                prog.push(UN[ch.below(3)].clone());
+            }
+            if ch.chance(40) {
+                // shift by a generic count
+                prog.pop();
+                prog.push(MOp::Lit(ch.pick(&[0u8, 1, 7, 8, 15, 16, 31])));
+            }
+            prog.push(BIN[ch.below(BIN.len())].clone());
+            if ch.chance(100) {
+                prog.push(MOp::RegvalType(3, 0x20, false));
+                prog.push(BIN[ch.below(BIN.len())].clone());
+            }
+            if ch.chance(60) {
+                prog.push(UN[ch.below(3)].clone());
+            }
+            if ch.chance(128) {
+                prog.push(MOp::StackValue);
+            }
+            let code = encode(&prog, &cfg);
+            let case = ExprCase { cfg, code, object_address: None, initial_value: None };
+            let mut src = AnswerSource { values: values.clone(), u64s: vec![1, 2, 3], codes: vec![Vec::new()], types: vec![ty], i: 0 };
+            cx.sample_with(|| format!("{} typed program {:?} over register values {:?}", cfg.describe(), prog, values));
+            check_decode(&case.code, &cfg, cx)?;
+            let mut f = |r: &Req| src.answer(r);
+            return check_eval(&case, &mut f, cx, true);
+        }
         let prog = gen_program(ch, &cfg, 0, 24);
         let code = encode(&prog, &cfg);
         let case = ExprCase {
